@@ -192,7 +192,8 @@ def run(ctx):
                 T = L.trip(g_)
                 seen.append(str(T))
                 init, step = L.ivs()[g_.iv]
-                if T is not None and T == Poly.atom(f'arg{cnt}') and init is not None and not isinstance(init, tuple) and init.is_zero():
+                i0 = init[1] if isinstance(init, tuple) else init          # pointer walks: offset from the row / column start
+                if T is not None and T == Poly.atom(f'arg{cnt}') and i0 is not None and i0.is_zero():
                     okh = True
         if okh:
             r.ok(inst, func=hf.name, loc=hf.mod.src)
